@@ -1259,7 +1259,10 @@ class Runner
             {
                 const bool was_usable = usable(s);
                 const std::size_t old_cap = was_usable ? vs[s].m.cap : 0;
+                const std::size_t cons_before = was_usable ? vs[s].v->memory_consumption() : 0;
+                ledger().op_max_data_bytes = 0;
                 op_reserve(op);
+                if (was_usable && prop == 5 && !bad() && vs[s].m.cap > old_cap) check_footprint(s, cons_before, 0, vs[s].m.budget, "reserve");
                 if (!was_usable) break;
                 const std::size_t delta = op.b % 7;
                 const std::size_t n = delta == 0 ? (old_cap > 0 ? old_cap - 1 : 0) : old_cap + delta - 1;
